@@ -3,6 +3,7 @@ package kit
 import (
 	"encoding/json"
 	"fmt"
+	"sync"
 
 	"github.com/jsightapi/jsight-schema-core/fs"
 	"github.com/jsightapi/jsight-schema-core/reader"
@@ -95,5 +96,12 @@ func openAPIPanicFree(
 	if oerr != nil {
 		return nil, oerr
 	}
+
+	// The schema library marshals its OpenAPI objects through pooled buffers that it hands out
+	// after putting them back: concurrent exports overwrite each other's output.
+	openAPIMarshalMu.Lock()
+	defer openAPIMarshalMu.Unlock()
 	return marshal(o)
 }
+
+var openAPIMarshalMu sync.Mutex
